@@ -54,6 +54,12 @@ type GhostStmt struct {
 	E    *SpecExpr
 }
 
+// TheoremGoal: a closed SMT-LIB formula proved from the block's preamble alone
+type TheoremGoal struct {
+	Name string
+	SMT  string
+}
+
 type LemmaCall struct {
 	Name string
 	Args []*SpecExpr
@@ -104,6 +110,8 @@ type Contract struct {
 	Nullable    []string // pointer-typed cells that may be nil at entry
 	GhostParams []string
 	Lets        []GhostStmt // entry parametrisation: lvalue = expr (substituted into the entry state)
+	Theorem     bool        // a block of pure SMT goals (no Go function): inductive lemmas used as axioms by contracts
+	Goals       []TheoremGoal
 	Modulo      []GhostStmt // hypotheses "monomial = polynomial" used as rewrite rules by eqmod (ideal membership)
 }
 
@@ -268,6 +276,17 @@ func ParseContracts(file string) ([]*Contract, error) {
 			cur = &Contract{Func: rest, File: file, Line: ln, Loops: map[int]*Annot{}, Options: map[string]string{}, Alias: "all", Tags: "any"}
 			out = append(out, cur)
 			ann = nil
+			continue
+		}
+		if kw == "theorem" {
+			cur = &Contract{Func: "theorem:" + rest, Theorem: true, File: file, Line: ln, Loops: map[int]*Annot{}, Options: map[string]string{}, Alias: "all", Tags: "any"}
+			out = append(out, cur)
+			ann = nil
+			continue
+		}
+		if strings.HasPrefix(kw, "goal[") && cur != nil && cur.Theorem {
+			name := kw[5:strings.Index(kw, "]")]
+			cur.Goals = append(cur.Goals, TheoremGoal{Name: name, SMT: rest})
 			continue
 		}
 		if cur == nil {
